@@ -489,6 +489,7 @@ def run_xp(ctx, xh, xm, found, texts, report, replay_group=None):
     import C11_xp as X
     t0 = time.time()
     groups = [replay_group] if replay_group else X.gen(ctx)
+    groups, n_empty = X.drop_empty_classes(groups, xm, ctx.coverage.get("_swbits", "000"))
     tagged_all, spans = [], []
     for gi, g in enumerate(groups):
         others = [groups[(gi + d) % len(groups)] for d in (1, 2)] if len(groups) > 2 else []
@@ -587,7 +588,7 @@ def run_xp(ctx, xh, xm, found, texts, report, replay_group=None):
                                            "xp_group": {k2: g[k2] for k2 in ("kind", "pat", "opts", "subj", "deco", "plain", "ngroups")},
                                            "what": "non-schema matches(): window found differs from the search model (Model11.xsearch_tok)"})
                     break
-    ctx.coverage["xp"] = {"groups": len(groups), "requests": len(lines), "oracle_hits": oracle_hits,
+    ctx.coverage["xp"] = {"groups": len(groups), "dropped_empty_class_F32": n_empty, "requests": len(lines), "oracle_hits": oracle_hits,
                           "spec_checked_groups": len(spec_lines), "model_checked_groups": len(model_lines),
                           "model_checked_subjects": n_model, "seconds": round(time.time() - t0, 1)}
     ctx.coverage["traces_validated_against_impl"] += len(lines)
@@ -819,6 +820,8 @@ def run(ctx):
         # F32 witness, in a process of its own (the overrun corrupts the heap)
         try:
             rcw, ow, _ = run_bin(xh, ["xp b i %s %s" % (hx([ord(c) for c in "[a-[a]]"]), hx([0x61]))], 60)
+            if rcw == 0 and ow and ow[0].startswith("ok"):
+                rcw, ow, _ = run_bin(xh, ["xp b - %s %s" % (hx([ord(c) for c in "([a-[a]]b|a)"]), hx([0x61]))], 60)
         except subprocess.TimeoutExpired:
             rcw, ow = -9, []
         if rcw != 0 or not ow or not ow[0].startswith("ok"):
